@@ -1,4 +1,5 @@
 import TbotVerif.Spec.Chan
+import TbotVerif.Spec.Own
 /-! Driver commands of the channel cluster (C02–C08). -/
 namespace Driver.Chan
 
@@ -9,6 +10,68 @@ def specOf (id : String) : Option (Case → List OpObs × Bytes → Bool) :=
   match id with
   | "C02" => some Spec.C02 | "C03" => some Spec.C03 | "C04" => some Spec.C04 | "C05" => some Spec.C05 | "C08" => some Spec.C08 | "C06" => some Spec.C06
   | _ => none
+
+namespace OwnWire
+open Own
+
+def optHex (s : String) : Option (Option Bytes) :=
+  if s == "none" then some none else (Bytes.ofHex s).map some
+
+def op (s : String) : Option Own.Op :=
+  match s.splitOn ":" with
+  | ["io", h] => h.toNat?.map .io
+  | ["closed", h] => h.toNat?.map .closed
+  | ["close", h] => h.toNat?.map .close
+  | ["exit", h] => h.toNat?.map .exit
+  | ["b+", h] => h.toNat?.map .borrowEnter
+  | ["b-"] => some .borrowExit
+  | ["take", h] => h.toNat?.map .take
+  | ["sp", h, p] => do pure (.setPrompt (← h.toNat?) (← optHex p))
+  | ["sbl", h, b] => do pure (.setBlacklist (← h.toNat?) (← Bytes.ofHex b))
+  | ["ad", h, d, e] => do pure (.addDeath (← h.toNat?) (← Bytes.ofHex d) (← e.toNat?))
+  | ["ss", h, d, c] => do pure (.setSlow (← h.toNat?) (← Wire.optNat d) (← c.toNat?))
+  | ["cfg", h] => h.toNat?.map .getCfg
+  | _ => none
+
+def cfg (c : HCfg) : String :=
+  "c/" ++ (match c.prompt with | none => "none" | some p => Bytes.toHex p) ++ "/" ++ Bytes.toHex c.blacklist ++ "/"
+    ++ Wire.sepBy "+" (c.deaths.map fun d => s!"{Bytes.toHex d.1}.{d.2}") ++ "/" ++ Wire.natOpt c.slowDelay
+    ++ "/" ++ toString c.slowChunk
+
+def cfgOf (f : List String) : Option HCfg :=
+  match f with
+  | ["c", p, bl, ds, sd, sc] => do
+    let one (d : String) : Option (Bytes × Nat) :=
+      match d.splitOn "." with
+      | [x, e] => do pure (← Bytes.ofHex x, ← e.toNat?)
+      | _ => none
+    let ds ← if ds == "." then some [] else (ds.splitOn "+").mapM one
+    pure { prompt := ← optHex p, blacklist := ← Bytes.ofHex bl, deaths := ds, slowDelay := ← Wire.optNat sd,
+           slowChunk := ← sc.toNat? }
+  | _ => none
+
+def res : Res → String
+  | .ok => "ok" | .errBorrowed => "eb" | .errTaken => "et"
+  | .bool b => if b then "b1" else "b0"
+  | .new h => s!"n{h}"
+  | .cfg c => cfg c
+  | .badop => "badop"
+
+def resOf (s : String) : Option Res :=
+  if s == "ok" then some .ok else if s == "eb" then some .errBorrowed else if s == "et" then some .errTaken
+  else if s == "b1" then some (.bool true) else if s == "b0" then some (.bool false)
+  else if s == "badop" then some .badop
+  else if s.startsWith "n" then (s.drop 1).toNat?.map .new
+  else (cfgOf (s.splitOn "/")).map .cfg
+
+def obs (o : Obs) : String := s!"{res o.res};{if o.ioClosed then 1 else 0};{o.closeCalls}"
+
+def obsOf (s : String) : Option Obs :=
+  match s.splitOn ";" with
+  | [r, c, n] => do pure { res := ← resOf r, ioClosed := ← Wire.bool c, closeCalls := ← n.toNat? }
+  | _ => none
+
+end OwnWire
 
 /-- `none`: not a command of this cluster -/
 def handle (toks : List String) : Option String :=
@@ -32,6 +95,15 @@ def handle (toks : List String) : Option String :=
     some (match Wire.case rest with
     | some c => Wire.obs (Chan.run c)
     | none => "bad-op")
+  | "own" :: rest =>
+    some (match rest.mapM OwnWire.op with
+    | some ops => " ".intercalate ((Own.run {} ops).map OwnWire.obs)
+    | none => "bad-op")
+  | "spec" :: "C07" :: rest =>
+    let (ct, ot) := splitAt2 rest "||"
+    some (match ct.mapM OwnWire.op, ot.mapM OwnWire.obsOf with
+    | some ops, some o => if Spec.C07 ops o then "1" else "0"
+    | _, _ => "bad-op")
   | "spec" :: id :: rest =>
     match specOf id with
     | none => none
